@@ -471,6 +471,12 @@ class ColorValue(Value):
                 if len(rgba) < 4:
                     rgba.append(1.0)
 
+                # values outside the range are clipped: rgb(300, 0, -1) is
+                # rgb(255, 0, 0), rgb(110%, 0%, 0%) is rgb(100%, 0%, 0%)
+                rgba = [min(max(c, 0), 255) for c in rgba[:3]] + [
+                    min(max(rgba[3], 0), 1)
+                ]
+
                 # validate
                 checks = {
                     'rgb(': ('NNN', 'PPP'),
